@@ -47,7 +47,12 @@ class Injected(Exception):
     pass
 
 
-def make_handler(fail_at, counter, methods=('update', 'flash', 'set', 'close')):
+class InjectedBase(BaseException):
+    """Like KeyboardInterrupt: not an Exception subclass."""
+
+
+def make_handler(fail_at, counter, methods=('update', 'flash', 'set', 'close'),
+                 exc=Injected):
     """ProgressHandler subclass counting calls (across instances) and raising at call k."""
     from wn.util import ProgressHandler
 
@@ -58,7 +63,7 @@ def make_handler(fail_at, counter, methods=('update', 'flash', 'set', 'close')):
                 counter['log'].append(name)
                 if fail_at is not None and counter['n'] == fail_at:
                     counter['fired_in'] = name
-                    raise Injected(f'progress call {fail_at} ({name})')
+                    raise exc(f'progress call {fail_at} ({name})')
 
         def update(self, n=1, force=False):
             self._tick('update')
@@ -307,20 +312,23 @@ def oracle(case, thorough=False):
     def note(kind, res_):
         tags[f'{kind}:{res_}'] = tags.get(f'{kind}:{res_}', 0) + 1
 
-    # ---- 1. progress-handler faults
+    # ---- 1. progress-handler faults (ordinary exceptions and KeyboardInterrupt-like ones)
     for k in _spread(case['positions'], K, limit):
-        db = lab.fresh_copy()
-        c = {'n': 0, 'log': []}
-        raised = False
-        try:
-            lab.run_op(make_handler(k, c))
-        except Injected:
-            raised = True
-        r = after_fault(db, f'progress k={k}/{K} ({c.get("fired_in")})', raised,
-                        in_close=c.get('fired_in') == 'close')
-        note('progress', r)
-        if len(out) > 6:
-            return out
+        kinds = (Injected, InjectedBase) if case.get('all_positions') else \
+            ((Injected,) if k % 2 else (InjectedBase,))
+        for exc in kinds:
+            db = lab.fresh_copy()
+            c = {'n': 0, 'log': []}
+            raised = False
+            try:
+                lab.run_op(make_handler(k, c, exc=exc))
+            except (Injected, InjectedBase):
+                raised = True
+            r = after_fault(db, f'progress k={k}/{K} ({c.get("fired_in")}) {exc.__name__}',
+                            raised, in_close=c.get('fired_in') == 'close')
+            note('progress' if exc is Injected else 'progress-baseexception', r)
+            if len(out) > 6:
+                return out
 
     # ---- 2. reference corruptions (add only)
     if case['op'] == 'add':
@@ -447,7 +455,8 @@ SUBS = [
     Sub('faults-sampled', oracle, _classify,
         strategy=lambda tier: _cases(), budget={'quick': 25, 'thorough': 10},
         fingerprint=_fp, sample=_sample, purge_every=1,
-        require_tags=('progress:rolled-back', 'authorizer:rolled-back', 'trigger:rolled-back',
+        require_tags=('progress:rolled-back', 'progress-baseexception:rolled-back',
+                      'authorizer:rolled-back', 'trigger:rolled-back',
                       'op:remove')),
     Sub('faults-all-positions', oracle_all, _classify,
         strategy=lambda tier: _cases(), budget={'quick': 4, 'thorough': 40},
